@@ -1,10 +1,10 @@
-(* C07 proofs for the kinds model Sys/TopicKinds.v: routing, and the world invariant
+(* C07 proofs for the kinds model Sys/TopicKindsC07.v: routing, and the world invariant
    "every stored subscription, cached entry and attached session of a topic belongs to a
    legitimate participant (me/fnd: the owner; sys: a root user; p2p: one of the two named
    users), p2p modes are within JRWPA and contain A", for every history whose requests avoid
    the three reproduced defect patterns (findings/C07.md). *)
 From Coq Require Import ZArith NArith List Bool Lia.
-From Tinode Require Import Base.Util Pure.Acs Sys.Topic Sys.TopicTac Sys.TopicMarks Sys.TopicAclProofs Sys.TopicKinds.
+From Tinode Require Import Base.Util Pure.Acs Sys.Topic Sys.TopicTac Sys.TopicMarks Sys.TopicAclC07Proofs Sys.TopicKindsC07.
 Import ListNotations.
 Open Scope N_scope.
 
